@@ -77,7 +77,8 @@ func (d *DatasourceExecuting) Run(ctx ExecutionContext, produce ProduceFn, metaS
 			}
 
 			if octosql.Float.Is(d.fields[i].Type) == octosql.TypeRelationIs {
-				float, err := fastfloat.Parse(str)
+				// fastfloat.Parse is inexact for numbers written with an exponent, the schema was inferred with strconv.
+				float, err := strconv.ParseFloat(str, 64)
 				if err == nil {
 					values[i] = octosql.NewFloat(float)
 					continue
